@@ -637,7 +637,7 @@ fn oracle_c07(rep: &mut Report, c: &Case, spec: &openapiv3::OpenAPI, h: &hir::Hi
 // ---- C05 oracle --------------------------------------------------------------------------------
 
 /// declared inputs of an operation, from the OpenAPI meaning: (name, location, required)
-fn declared_inputs(spec: &openapiv3::OpenAPI, op: &openapiv3::Operation, item: &openapiv3::PathItem) -> Option<Vec<(String, String, bool)>> {
+pub fn declared_inputs(spec: &openapiv3::OpenAPI, op: &openapiv3::Operation, item: &openapiv3::PathItem) -> Option<Vec<(String, String, bool)>> {
     let mut out: Vec<(String, String, bool)> = vec![];
     let mut add = |p: &openapiv3::Parameter, out: &mut Vec<(String, String, bool)>| {
         let loc = match p.kind { openapiv3::ParameterKind::Query { .. } => "query", openapiv3::ParameterKind::Header { .. } => "header", openapiv3::ParameterKind::Path { .. } => "path", openapiv3::ParameterKind::Cookie { .. } => "cookie" };
